@@ -9,6 +9,19 @@ Lemma C03_pin_thresholds : (hbond_max_distance == 4 /\ hbond_angle_lo == 50 /\ h
 Proof. repeat split; reflexivity. Qed.
 Print Assumptions C03_pin_thresholds.
 
+(* pin: the chemistry tables of the source are the ones the property is read against (donors, acceptors, edges per base) *)
+Lemma C03_pin_tables :
+  base_donors = [("A", ["C2"; "N6"; "C8"; "O2'"]); ("G", ["N1"; "N2"; "C8"; "O2'"]); ("C", ["N4"; "C5"; "C6"; "O2'"]); ("U", ["N3"; "C5"; "C6"; "O2'"]); ("T", ["N3"; "C6"; "C7"])]%string /\
+  base_acceptors = [("A", ["N1"; "N3"; "N7"]); ("G", ["N3"; "O6"; "N7"]); ("C", ["O2"; "N3"]); ("U", ["O2"; "O4"]); ("T", ["O2"; "O4"])]%string /\
+  phosphate_acceptors = ["OP1"; "OP2"; "O5'"; "O3'"]%string /\ ribose_acceptors = ["O4'"; "O2'"]%string /\
+  base_edges = [("A", [("N1", "W"); ("C2", "WS"); ("N3", "S"); ("N6", "WH"); ("N7", "H"); ("C8", "H"); ("O2'", "S")]);
+                ("G", [("N1", "W"); ("N2", "WS"); ("N3", "S"); ("O6", "WH"); ("N7", "H"); ("C8", "H"); ("O2'", "S")]);
+                ("C", [("O2", "WS"); ("N3", "W"); ("N4", "WH"); ("C5", "H"); ("C6", "H"); ("O2'", "S")]);
+                ("U", [("O2", "WS"); ("N3", "W"); ("O4", "WH"); ("C5", "H"); ("C6", "H"); ("O2'", "S")]);
+                ("T", [("O2", "WS"); ("N3", "W"); ("O4", "WH"); ("C6", "H"); ("C7", "H")])]%string.
+Proof. repeat split; reflexivity. Qed.
+Print Assumptions C03_pin_tables.
+
 (* every contact the scan records is justified (donor/acceptor, two residues, both windows Yes) and recorded once *)
 Theorem C03_contacts : forall rs order,
     (forall h, In h (hbonds (scan rs order)) -> justified rs (candidates rs) order h) /\
